@@ -319,6 +319,10 @@ def _rms_norm_batch_rule(
     x_bdim, scale_bdim, bias_bdim = batch_dims
     if scale_bdim is not None or bias_bdim is not None:
         raise NotImplementedError("Batching over RMSNorm parameters is not supported.")
+    # The normalised axes are the trailing ones: keep the batch axis in front of them.
+    if x_bdim is not None and x_bdim != 0:
+        x = jnp.moveaxis(x, x_bdim, 0)
+        x_bdim = 0
     result = cast(
         jax.Array,
         RMSNormPlugin._PRIM.bind(
